@@ -32,6 +32,9 @@ def check(scn, H, view=None):
         if ev['ev'] != 'decl' or 'before' not in ev:
             continue
         d = scn['decls'][ev['k']]
+        at = d.get('f_at')
+        if at is not None and ev.get('f_used') is not None:
+            d = dict(d, f=ev['f_used'])
         verdict, exc = model.judge(d)
         accepted = ev['exc'] is None
         mk, sk = esi[d['m']]['kind'], esi[d['s']]['kind']
@@ -73,6 +76,13 @@ def check(scn, H, view=None):
                 model.apply(d)
             except Exception:      # noqa
                 continue
+            if at is not None and d['op'] == 'worm':
+                # the friction sits on the library's own threshold float (or
+                # k ulps beside it): "f > threshold" is decided by k alone
+                wi_ = d['m'] if esi[d['m']]['kind'] == 'WormGear' else d['s']
+                model.self_locking[wi_] = int(at.get('ulps', 0)) > 0
+                model.fragile = False
+                st['F_BOUNDARY_friction_on_threshold'] += 1
             am, as_ = ev['after']
             if verdict == 'accept':
                 if am.get('drives') != d['s'] or as_.get('driven_by') != d['m']:
